@@ -238,5 +238,81 @@ def emit() -> str:
     out.append(_fn("tap1ProgressKillChain", common, "Ctl", Tr(mm, prog, {}, False).stmts(m.body, 1), "`TAP001._progress_kill_chain`"))
     m = find_method(class_def(t3, "TAP003"), "_progress_kill_chain")
     out.append(_fn("tap3ProgressKillChain", common, "Ctl", Tr(ins, prog, {}, False).stmts(m.body, 1), "`TAP003._progress_kill_chain`"))
+    out.append(_resp_sites(t3))
     out.append("end Primaite.Gen.AgentsCtl\n")
     return "\n".join(out)
+
+
+# ------------------------------------------------------------------ the responses TAP003 reads, and where they are built
+def _rr_site(call: ast.Call) -> Tuple[str, List[str]]:
+    """(status, keys of data) of one `RequestResponse(status=…, data={…})` construction."""
+    kw = {k.arg: k.value for k in call.keywords}
+    if call.args or "status" not in kw or not isinstance(kw["status"], ast.Constant):
+        raise Unsupported("RequestResponse site without a literal status: " + ast.unparse(call)[:80])
+    data = kw.get("data")
+    if data is None:
+        keys = []
+    elif isinstance(data, ast.Dict) and all(isinstance(k, ast.Constant) for k in data.keys):
+        keys = [k.value for k in data.keys]
+    else:
+        raise Unsupported("RequestResponse site whose data is not a dict literal: " + ast.unparse(call)[:80])
+    return kw["status"].value, keys
+
+
+def _resp_sites(t3: ast.AST) -> str:
+    """`SimOk` tie: (1) the simulation's `do-nothing` request; (2) every response `Terminal._remote_login` builds;
+    (3) every `….response.data[key]` TAP003 reads, with its method, and the guards in front of the reads."""
+    sim = parse("simulator/sim_container.py")
+    dn = [c for c in ast.walk(sim) if isinstance(c, ast.Call) and ast.unparse(c.func).endswith("add_request") and c.args
+          and isinstance(c.args[0], ast.Constant) and c.args[0].value == "do-nothing"]
+    if len(dn) != 1:
+        raise Unsupported(f"{len(dn)} registrations of the do-nothing request in sim_container.py")
+    rr = [c for c in ast.walk(dn[0]) if isinstance(c, ast.Call) and ast.unparse(c.func) == "RequestResponse"]
+    lam = [x for x in ast.walk(dn[0]) if isinstance(x, ast.Lambda)]
+    if len(rr) != 1 or len(lam) != 1 or lam[0].body is not rr[0]:
+        raise Unsupported("the do-nothing request is not `lambda request, context: RequestResponse(…)`")
+    dn_status, _ = _rr_site(rr[0])
+    term = parse("simulator/system/services/terminal/terminal.py")
+    fn = [f for f in ast.walk(term) if isinstance(f, ast.FunctionDef) and f.name == "_remote_login"]
+    reg = [c for c in ast.walk(term) if isinstance(c, ast.Call) and ast.unparse(c.func).endswith("add_request") and c.args
+           and isinstance(c.args[0], ast.Constant) and c.args[0].value == "node_session_remote_login"]
+    if len(fn) != 1 or len(reg) != 1 or "func=_remote_login" not in ast.unparse(reg[0]):
+        raise Unsupported("terminal.py: node_session_remote_login is not served by exactly one `_remote_login`")
+    sites = []
+    for r in [x for x in ast.walk(fn[0]) if isinstance(x, ast.Return)]:
+        if not (isinstance(r.value, ast.Call) and ast.unparse(r.value.func) == "RequestResponse"):
+            raise Unsupported("_remote_login returns something other than a RequestResponse(…) literal")
+        sites.append(_rr_site(r.value))
+    reads = set()
+    cls = class_def(t3, "TAP003")
+    for m in [x for x in cls.body if isinstance(x, ast.FunctionDef)]:
+        for sub in ast.walk(m):
+            if isinstance(sub, ast.Subscript) and ast.unparse(sub.value).endswith(".response.data"):
+                if not isinstance(sub.slice, ast.Constant):
+                    raise Unsupported("response.data read with a computed key in " + m.name)
+                reads.add((m.name, sub.slice.value))
+            elif isinstance(sub, ast.Attribute) and sub.attr == "data" and ast.unparse(sub.value).endswith(".response"):
+                pass
+        # any use of response.data other than a literal subscript (e.g. `.get`, iteration) is not modelled
+        for sub in ast.walk(m):
+            if isinstance(sub, ast.Call) and ".response.data." in ast.unparse(sub.func):
+                raise Unsupported("response.data used through a method call in " + m.name)
+    ga = find_method(cls, "get_action")
+    guard = None
+    for node in ast.walk(ga):
+        if isinstance(node, ast.If) and any(isinstance(x, ast.Subscript) and ast.unparse(x.value).endswith(".response.data")
+                                            for b in node.body for x in ast.walk(b)):
+            guard = ast.unparse(node.test)          # innermost if that contains the read: keep the LAST found while walking down
+    hl = find_method(cls, "_handle_login_response")
+    login_guard = [ast.unparse(x.test) for x in hl.body if isinstance(x, ast.If) and any(isinstance(y, ast.Return) for y in x.body)]
+    q = lambda x: '"' + str(x).replace('"', "'") + '"'  # noqa: E731
+    strs = lambda xs: "[" + ", ".join(q(x) for x in xs) + "]"  # noqa: E731
+    return ("/-- `SimOk` tie.  The status the simulation answers a `do-nothing` request with (sim_container.py) -/\n"
+            f"def doNothingStatus : String := {q(dn_status)}\n"
+            "/-- every response `Terminal._remote_login` (the handler of `node_session_remote_login`) builds: status, keys of data -/\n"
+            f"def remoteLoginSites : List (String × List String) := [{', '.join(f'({q(st)}, {strs(ks)})' for st, ks in sites)}]\n"
+            "/-- every literal `….response.data[key]` in TAP003: (method, key) -/\n"
+            f"def tap3DataReads : List (String × String) := [{', '.join(f'({q(m)}, {q(k)})' for m, k in sorted(reads))}]\n"
+            "/-- the innermost `if` of `TAP003.get_action` around its read of response.data; the early-return guards of `_handle_login_response` -/\n"
+            f"def tap3ReasonGuard : String := {q(guard)}\n"
+            f"def tap3LoginGuards : List String := {strs(login_guard)}\n")
